@@ -471,6 +471,24 @@ def int_grid(W):
     return sorted({x & ((1 << W) - 1) for x in g})
 
 
+def ub_on_grid(row, rhs, ops):
+    """first grid operand for which evaluating the template expression runs into undefined behaviour (text), or None"""
+    from .ctyperules import ieval, EvalTrap, EvalUB, EvalUnknown
+    W = W_OF[row['params'][0]]
+    grid = int_grid(W)
+    pts = [(x,) for x in grid] if len(ops) == 1 else [(x, y) for x in grid for y in grid]
+    for vals in pts:
+        try:
+            ieval(rhs, dict(zip(ops, vals)))
+        except EvalTrap:
+            pass
+        except EvalUB as u:
+            return 'operands %s: %s' % (', '.join('0x%X' % v for v in vals), u)
+        except EvalUnknown as u:
+            raise AnalysisBroken('%s: not evaluable (%s)' % (row['name'], u))
+    return None
+
+
 def refute_on_grid(row, rhs, ops, Wres, small=False):
     """evaluate the (unrecognised) template expression exactly on a grid of boundary operands against the specification; returns a
     problem text for the first disagreement (a definite witness), None when every grid point agrees (which decides nothing more)"""
